@@ -281,14 +281,32 @@ class _NotFoundValue():
 NOT_FOUND = _NotFoundValue()
 
 
+def _follow_ref(grid, ref):
+    """
+    The row a reference points to: the one whose id is that reference,
+    whether the grid keeps its ids as Ref (as parsed grids do) or as strings.
+    """
+    for key in (ref.name, Ref(ref.name)):
+        row = grid.get(key)
+        if row is not None:
+            return row
+    # The id may carry a display name, which is part of its string form
+    for row in grid:
+        row_id = row.get('id')
+        if isinstance(row_id, Ref) and (row_id.name == ref.name):
+            return row
+    raise KeyError(ref.name)
+
+
 def _get_path(grid, obj, paths):
     try:
         for i, path in enumerate(paths):
             obj = obj[path]
             if i != len(paths)-1 and isinstance(obj, Ref):
-                obj = grid[obj.name]  # Follow the reference
+                obj = _follow_ref(grid, obj)  # Follow the reference
         return obj  # It's a value at this time
-    except KeyError:
+    except (KeyError, TypeError):
+        # No such tag, a dangling reference, or a value that has no tags
         return NOT_FOUND
 
 
